@@ -302,10 +302,11 @@ def gen_pair_cases(rng, alphas):
                                    '<feFuncB type="identity"/><feFuncA type="table" tableValues="0 0.25 0.5 0.75 1"/></feComponentTransfer>'),
              src='pairs:' + a, out='ra',
              model="(px_component_transfer [TFLinear f1 fzero; TFTable [fzero; f1]; TFIdentity; TFTable [fzero; flit 1 4; flit 1 2; flit 3 4; f1]])"),
-        dict(kind='pairs/saturate1/sRGB', doc=apply_doc(256, n, '<feColorMatrix type="saturate" values="1"/>'),
-             src='pairs:' + a, out='ra', model="(px_color_matrix (CMSaturate f1))"),
-        dict(kind='pairs/hue0/sRGB', doc=apply_doc(256, n, '<feColorMatrix type="hueRotate" values="0"/>'),
-             src='pairs:' + a, out='ra', model="(px_color_matrix (CMHueRotate f1 fzero))"),
+        # second pass: every third alpha row is enough here (the rows are proved for all bytes; this validates parser + wiring)
+        dict(kind='pairs/saturate1/sRGB', doc=apply_doc(256, len(alphas[::3]), '<feColorMatrix type="saturate" values="1"/>'),
+             src='pairs:' + ",".join(str(x) for x in alphas[::3]), out='ra', model="(px_color_matrix (CMSaturate f1))"),
+        dict(kind='pairs/hue0/sRGB', doc=apply_doc(256, len(alphas[::3]), '<feColorMatrix type="hueRotate" values="0"/>'),
+             src='pairs:' + ",".join(str(x) for x in alphas[::3]), out='ra', model="(px_color_matrix (CMHueRotate f1 fzero))"),
         dict(kind='pairsany/luminance/sRGB', doc=apply_doc(256, n, '<feColorMatrix type="luminanceToAlpha"/>'),
              src='pairsany:' + a, out='ra', model="(px_color_matrix CMLuminanceToAlpha)"),
     ]
